@@ -332,12 +332,19 @@ def check_history(case, ctx):
                 w, outputs=O, observed=repr(ex)[:150], accepted=['a solution']))
             return
         ctx.count('monitor.restricted-outputs')
+        okeys = {wbrun.node_key(desc, tuple(k)): tuple(k) for k in case['O']}
         for o in O:
             a = xl.canon(xl.unwrap(sol_o[o])) if o in sol_o else ('missing',)
             b = xl.canon(xl.unwrap(sol_live[o])) if o in sol_live else ('missing',)
             if not xl.same(a, b):
-                ctx.violation('restricted-outputs-differ:%s' % kinds, dict(
-                    w, outputs=O, cell=o, observed=xl.show(a), accepted=[xl.show(b)]))
+                # where a range override races with a member's own producer
+                # (the two open findings) the winner may differ between the
+                # two calls: same mechanism, tagged for the matchers
+                extra = annotate(okeys[o]) if okeys.get(o) else {}
+                tag = extra.pop('_tag', '') if extra else ''
+                ctx.violation('restricted-outputs-differ:%s%s' % (tag, kinds), dict(
+                    w, outputs=O, cell=o, observed=xl.show(a), accepted=[xl.show(b)],
+                    **extra))
 
 
 def _cell_of(desc, sol, key):
